@@ -7,7 +7,7 @@ ASSUMPTIONS = ["same stubs as C04/C06 (copy, get_stack_info, ThreadInfo::create,
 TL = {"XMM_SAVE_AREA32": 100, "MINIDUMP_EXCEPTION": 20, "alloc_from_array": 20}
 HARNESSES = [
     H("c04_registers::c05_ucontext_to_context", desc="ucontext/fpregset -> CONTEXT_AMD64, all values symbolic", loops={"XMM_SAVE_AREA32": 100}),
-    H("c06_stacks::c04_tl_1thread_crash", desc="crash context blames the only thread: record uses the supplied context; exception record code/flags/address/context (12 min)", timeout=2400, loops=TL, est_gb=14, mem_gb=30),
+    H("c06_stacks::c04_tl_1thread_crash", desc="crash context blames the only thread: record uses the supplied context; exception record code/flags/address/context (12-14 min)", timeout=2400, loops=TL, est_gb=14, mem_gb=30, tier="thorough"),
     H("c06_stacks::c04_tl_1thread_requested", desc="no crash context: DUMP_REQUESTED, address == thread's rip, its captured context", timeout=2400, loops=TL, est_gb=14, mem_gb=30, expect_unsat_covers=("window clipped at the mapping start", "window clipped at the mapping end", "ip outside every mapping")),
     H("c06_stacks::c04_tl_2threads_crash_second", desc="2 threads, crash context blames the second", timeout=3400, loops=TL, tier="thorough", mem_gb=30),
     H("c06_stacks::c04_tl_2threads_crash_absent", desc="2 threads, crash context, blamed thread not listed: empty context location", timeout=3400, loops=TL, tier="thorough", mem_gb=30, expect_unsat_covers=("window clipped at the mapping start", "window clipped at the mapping end", "ip outside every mapping")),
